@@ -324,7 +324,8 @@ func main() {
 			case c < 6: // the WHOLE data is a Go value that is not a map: its fields and methods are the top-level names (C06, C13)
 				hasRoot = true
 				root = []any{&T4{N: 3}, T4{N: 5}, &T1{Name: "Bob", Age: 41, Tags: []string{"x"}}, T1{Name: "Ann", Age: 30, Inner: &T2{X: 4}},
-					(*T1)(nil), T3{T2{X: 6}, 7}, &T3{T2{X: 8}, 9}, &T2{X: 2}, map[string]any{"Name": "m", "len": int64(5)}, nil}[r.Intn(10)]
+					(*T1)(nil), T3{T2{X: 6}, 7}, &T3{T2{X: 8}, 9}, &T2{X: 2}, map[string]any{"Name": "m", "len": int64(5)}, nil,
+					[2]int{7, 8}, []any{int64(1), "a"}, []int{}, int64(5), "str", true, 3.5, map[string]any(nil), []int(nil)}[r.Intn(19)]
 				name := r.Pick([]string{"N", "Next", "Self", "Name", "Age", "Tags", "Inner", "Hello", "PtrM", "GetX", "X", "Y", "hidden", "nosuch", "len", "true", "string", "M", "Load", "Try"})
 				if root != nil && r.Chance(70) { // mostly a name the value's type knows: its fields, its methods and those of its pointer type
 					var own []string
